@@ -107,7 +107,7 @@ def _post_fit(call):
     # (b) constraints
     if constraints is not None:
         cv = _constraint_values(constraints, p)
-        okc = all(v >= -1e-7 for v in cv)
+        okc = all(v >= -2e-6 for v in cv)  # SLSQP accepts a point whose summed constraint violation is below its acc = 1e-6
         c.check("c14.constraints-satisfied", okc, "a declared inequality constraint is violated at the fitted parameters", "dep-constraints-never-passed-to-slsqp" if not okc else None, constraint_values=cv, **info)
     # (c) optimality
     mode = "documented"
@@ -115,7 +115,14 @@ def _post_fit(call):
     obj0 = _objective(dep, x, y, w, p0, mode)
     slack = 1e-6 * abs(obj) + 1e-18 + 1e-9 * float(np.sum(y * y)) * 1e-6
 
-    def improving(mode_):
+    def on_bound(j):
+        # trust-region-reflective keeps its iterates strictly inside: a parameter within 1e-5 of a bound counts as ON it
+        if bounds is None:
+            return False
+        lo, hi = bounds[j]
+        return (lo is not None and abs(p[j] - lo) <= 1e-5 * max(1.0, abs(lo))) or (hi is not None and abs(p[j] - hi) <= 1e-5 * max(1.0, abs(hi)))
+
+    def improving(mode_, rel_slack=1e-6):
         base = _objective(dep, x, y, w, p, mode_)
         worst = None
         for j in range(len(p)):
@@ -126,12 +133,16 @@ def _post_fit(call):
                     q = _project(q, bounds)
                     if q == p:
                         continue
+                    if on_bound(j) and abs(q[j] - p[j]) <= 1e-5 * max(1.0, abs(p[j])):
+                        continue  # the step only moves the parameter onto the bound it already sits at
                     if constraints is not None and any(v < 0 for v in _constraint_values(constraints, q)):
                         continue
                     o = _objective(dep, x, y, w, q, mode_)
                     # optimiser termination: relative 1e-6; the constrained (SLSQP) path stops on an ABSOLUTE change of
                     # the objective below its documented default ftol = 1e-6
-                    if np.isfinite(o) and o < base - (1e-6 * abs(base) + 1e-18 + 1e-15 * float(np.sum(y * y)) + (5e-6 if constraints is not None else 0.0)):
+                    # (SLSQP stops when one iteration changes the objective by less than 1e-6; the distance to the
+                    #  optimum it leaves is a multiple of that - up to 2.5e-5 seen in 6000 fits - so 1e-4 is allowed)
+                    if np.isfinite(o) and o < base - (rel_slack * abs(base) + 1e-18 + 1e-15 * float(np.sum(y * y)) + (1e-4 if constraints is not None else 0.0)):
                         if worst is None or o < worst[0]:
                             worst = (o, j, sgn * rel, q)
         return base, worst
@@ -140,7 +151,7 @@ def _post_fit(call):
     start_ok = (not np.isfinite(obj0)) or obj <= obj0 + 1e-6 * abs(obj0) + 1e-18
     mech = None
     if w is not None and (better is not None or not start_ok):
-        base_s, better_s = improving("as-sigma")
+        base_s, better_s = improving("as-sigma", 1e-4)  # mechanism predicate: optimal for the sigma reading (to 1e-4), far from it for the documented one
         o0s = _objective(dep, x, y, w, p0, "as-sigma")
         if better_s is None and (not np.isfinite(o0s) or base_s <= o0s + 1e-6 * abs(o0s) + 1e-18):
             mech = "dep-wlsq-weights-passed-as-sigma"
